@@ -11,6 +11,7 @@ The result is diffed against the source: any hunk that is not a pure insertion a
 import difflib
 import os
 import re
+import shutil
 import subprocess
 import tomllib
 
@@ -82,7 +83,7 @@ def match_brace(text, i):
     raise InstrumentError("unbalanced braces")
 
 
-def insert_contracts(root, verif):
+def insert_contracts(root, verif, modules=None):
     path = os.path.join(verif, "kani", "contracts.toml")
     if not os.path.exists(path):
         return []
@@ -90,6 +91,9 @@ def insert_contracts(root, verif):
     done = []
     by_file = {}
     for c in spec.get("contract", []):
+        mod = os.path.basename(c["file"])[:-3]
+        if modules is not None and mod not in modules:
+            continue
         by_file.setdefault(c["file"], []).append(c)
     for rel, cs in by_file.items():
         fpath = os.path.join(root, rel)
@@ -115,18 +119,24 @@ def insert_contracts(root, verif):
     return done
 
 
-def attach_modules(root, verif):
+def attach_modules(root, verif, modules=None):
+    """Snapshots /verif/kani/<m>.rs into <root>/.verif_kani/ and attaches each as a child module of fclones/src/<m>.rs."""
     done = []
     kdir = os.path.join(verif, "kani")
+    snap = os.path.join(root, ".verif_kani")
+    os.makedirs(snap, exist_ok=True)
     for f in sorted(os.listdir(kdir)):
         if not f.endswith(".rs"):
             continue
         mod = f[:-3]
+        if modules is not None and mod not in modules:
+            continue
         target = os.path.join(root, "fclones", "src", mod + ".rs")
         if not os.path.exists(target):
-            continue  # shared helper files are included from the harness modules themselves
+            raise InstrumentError("no source file for harness module %s (lost anchor)" % mod)
+        shutil.copy(os.path.join(kdir, f), os.path.join(snap, f))
         with open(target, "a") as out:
-            out.write('\n#[cfg(kani)]\n#[path = "%s"]\npub(crate) mod verif_%s;\n' % (os.path.join(kdir, f), mod))
+            out.write('\n#[cfg(kani)]\n#[path = "%s"]\npub(crate) mod verif_%s;\n' % (os.path.join(snap, f), mod))
         done.append("fclones/src/%s.rs += mod verif_%s" % (mod, mod))
     return done
 
@@ -152,12 +162,12 @@ def check_add_only(root):
     return changed
 
 
-def instrumented_copy(tag, verif=None):
+def instrumented_copy(tag, verif=None, modules=None):
     """Returns (scratch_root, report dict)."""
     verif = verif or common.VERIF
     root = common.mkscratch(tag)
     copy_tree(root)
-    contracts = insert_contracts(root, verif)
-    mods = attach_modules(root, verif)
+    contracts = insert_contracts(root, verif, modules)
+    mods = attach_modules(root, verif, modules)
     changed = check_add_only(root)
     return root, {"contracts_inserted": contracts, "modules_attached": mods, "files_changed": changed}
